@@ -116,7 +116,7 @@ def multisample_case(item):
             for s in order:
                 j = samples.index(s)
                 a, b = 30 + 7 * m + 11 * j, 3 + 5 * j + m
-                major, minor, normal = 1 + (m + j) % 3, ((m + j) % 3 + j) % 2 if (1 + (m + j) % 3) >= 1 else 0, 1 + (m % 2)
+                major, minor, normal = 1 + (m + j) % 3, ((m + j) % 3 + j) % 2 if (1 + (m + j) % 3) >= 1 else 0, 1 + ((m + j) % 2)  # the normal copy number differs between the samples of a mutation too
                 minor = min(minor, major)
                 t, eps = (0.3, 0.65, 1.0)[j], (1e-3, 0.02, 0.1)[(m + j) % 3]
                 spec[("q%d" % m, s)] = (a, b, major, minor, normal, t, eps)
